@@ -117,14 +117,23 @@ pub fn code_info_json(c: &sylvia::cw_std::CodeInfoResponse, base: u64) -> Value 
 }
 
 pub fn emit_op(prog: &str, hist: usize, step: usize, op: &Value, proxy_res: Value, raw_res: Value, proxy_view: Value, raw_view: Value, same_addr: bool) {
+    let (m0, m1) = MARKS.with(|m| m.get());
     rt::emit(json!({"ev":"MtOp","prog":prog,"hist":hist,"step":step,"op":op,"panic":"","proxy":{"res":proxy_res,"view":proxy_view},
-        "raw":{"res":raw_res,"view":raw_view},"same_addr":same_addr}));
+        "raw":{"res":raw_res,"view":raw_view},"same_addr":same_addr,"ran":{"proxy": m1 - m0, "raw": crate::runs() - m1}}));
+}
+
+thread_local! { static MARKS: std::cell::Cell<(u32, u32)> = const { std::cell::Cell::new((0, 0)) }; }
+/// Handler invocations are counted per side of an operation: `mark_runs(0)` is called before the proxy call (and at the start of
+/// every operation), `mark_runs(1)` between the proxy call and the raw submission; `emit_op` reads the counter a last time.
+pub fn mark_runs(i: u8) {
+    let now = crate::runs();
+    MARKS.with(|m| if i == 0 { m.set((now, now)) } else { m.set((m.get().0, now)) });
 }
 
 /// Code under test panicked during operation `step` of a history (the rest of the history is not run).
 pub fn emit_panic(prog: &str, hist: usize, step: usize, op: &Value, msg: &str) {
     rt::emit(json!({"ev":"MtOp","prog":prog,"hist":hist,"step":step,"op":op,"panic":msg,
-        "proxy":{"res":{"ok":false,"kind":"panic"},"view":{}},"raw":{"res":{"ok":false,"kind":"panic"},"view":{}},"same_addr":false}));
+        "proxy":{"res":{"ok":false,"kind":"panic"},"view":{}},"raw":{"res":{"ok":false,"kind":"panic"},"view":{}},"same_addr":false,"ran":{"proxy":0,"raw":0}}));
 }
 
 pub fn raw_query(app: &RawApp, contract: &Addr, doc: &str) -> Result<Value, String> {
